@@ -17,6 +17,9 @@ package rangeplugin
 //@ func (*PluginState).saveIPAddress
 //@   requires p != nil && p.leasedb != nil && record != nil
 //@   requires[C03:row-is-loadable] parsemac_ok(hwstr(mac))
+// C03: the expiry written is not earlier (beyond the one-second resolution) than the end of the
+// lease being promised: latest clock reading + lease time, in whole seconds (see time.spec)
+//@   requires[C03:stored-expiry-covers-the-promise] dur_ok(p.LeaseTime) ==> record.expires >= lease_end_sec(p.LeaseTime)
 //@   modifies nothing
 
 //@ func loadRecords
@@ -57,4 +60,9 @@ package rangeplugin
 //@   ensures[C02:new-binding-comes-from-the-allocator] (!old(has(p.Recordsv4, hwstr(req.ClientHWAddr))) && ret0 != nil) ==> (alloc_ok == old(alloc_ok) + 1 && has(p.Recordsv4, hwstr(req.ClientHWAddr)) && \
 //@       resp.YourIPAddr == p.Recordsv4[hwstr(req.ClientHWAddr)].IP && (forall k string: k != hwstr(req.ClientHWAddr) ==> (has(p.Recordsv4, k) <==> old(has(p.Recordsv4, k)))))
 //@   ensures[C02:known-clients-consume-nothing] old(has(p.Recordsv4, hwstr(req.ClientHWAddr))) ==> alloc_ok == old(alloc_ok)
+// C03: the expiry on record for the client covers the lease just promised (stored expiries are
+// taken to be plausible Unix times: 0 .. 8e9 seconds)
+//@   ensures[C03:recorded-expiry-covers-the-promise] (ret0 != nil && dur_ok(p.LeaseTime) && \
+//@       (old(has(p.Recordsv4, hwstr(req.ClientHWAddr))) ==> (0 <= old(p.Recordsv4[hwstr(req.ClientHWAddr)].expires) && old(p.Recordsv4[hwstr(req.ClientHWAddr)].expires) <= 8000000000))) ==> \
+//@       p.Recordsv4[hwstr(req.ClientHWAddr)].expires >= lease_end_sec(p.LeaseTime)
 //@   ensures[C02:configured-lease-time] ret0 != nil ==> has(resp.Options, 51)
